@@ -16,7 +16,7 @@ except Exception:  # pragma: no cover
 
 META = {
     "technique": "Lean 4 Nat/List index proofs over the model of Parser.forward and pack/unpack (any batch, any padding) + exact integer correspondence with the real Parser/pack + alone-vs-in-batch probes",
-    "level_text": "Theorems (all batch sizes/paddings): real-atom compaction is an order-preserving bijection, the flat pair list is the concatenation of shifted per-molecule lists (no pair crosses molecules; per-molecule sublist = single-molecule list + offset), index maps are injective and address the right blocks, outputs are independent of padding coordinates/width, pack/unpack round-trip, same-element swap permutes pair multisets. The model is compared exactly (integers) with the real Parser.forward and pack on random batches incl. garbage padding coordinates; alone-vs-batch equality of every output is probed on the real code across methods, solvers and force modes. Round 2 (C05b): for kernels acting row-wise the constant-mixing SCF loop, get_error and the SP2 batch loop are proved batch transparent and permutation equivariant for every batch and position; adaptive_mix and the Pulay reset are proved NOT path-transparent (witnesses), with partial theorems under the exact no-interference hypotheses and a proof that the acceptance test is row-wise.",
+    "level_text": "Theorems (all batch sizes/paddings): real-atom compaction is an order-preserving bijection, the flat pair list is the concatenation of shifted per-molecule lists (no pair crosses molecules; per-molecule sublist = single-molecule list + offset), index maps are injective and address the right blocks, outputs are independent of padding coordinates/width, pack/unpack round-trip, same-element swap permutes pair multisets. The model is compared exactly (integers) with the real Parser.forward and pack on random batches incl. garbage padding coordinates; alone-vs-batch equality of every output is probed on the real code across methods, solvers and force modes. Round 2 (C05b): for kernels acting row-wise the constant-mixing SCF loop, get_error and the SP2 batch loop are proved batch transparent and permutation equivariant for every batch and position; adaptive_mix and the Pulay reset are proved NOT path-transparent (witnesses), with partial theorems under the exact no-interference hypotheses and a proof that the acceptance test is row-wise. Translator tie: the real-versus-padding orbital bound at every site of the source (BasisTie, shared with C03).",
     "level_note": "Trusted: Lean kernel; harness. Float sums over pairs are order dependent in IEEE arithmetic: alone-vs-batch is compared to 1e-9 (solvers 0/1) / K*eps (Pulay, whose DIIS reset is batch-global: stated coupling, DESIGN C05-7). SCF kernels themselves are parameters of the model.",
     "design_ref": "DESIGN.md section 5 C05",
 }
